@@ -1,4 +1,5 @@
 """C11 — IBM 3624 PIN and offset are standard and mutually inverse."""
+import core
 from core import Case, enc_b, enc_s
 from props.cardutil import digits, rb
 
@@ -51,6 +52,13 @@ def generate(rng, tier, seed):
                 c = Case("window", {"pan_len": plen, "start": start, "len": ln})
                 one(c, rb(rng, rng.choice((8, 16, 24))), rng.choice(tables + [digits(rng, 16)]), digits(rng, rng.randrange(4, 17)), pan, start, ln, rng.choice(PADS))
                 yield c
+    for ks in (8, 16, 24):
+        for pvk in core.special_keys(rng, ks, limit=16 if tier == "quick" else None):
+            c = Case("special-key", {"pvk": pvk.hex()[:16], "size": ks})
+            plen = rng.randrange(4, 20)
+            start = rng.randrange(0, plen)
+            one(c, pvk, rng.choice(tables), digits(rng, rng.randrange(4, 17)), digits(rng, plen), start, rng.randrange(0, plen - start + 1), rng.choice(PADS))
+            yield c
     for pad in PADS:
         for dl in range(4, 17):
             c = Case("pad-and-length", {"pad": pad, "digits": dl})
